@@ -181,6 +181,46 @@ def macroize(rng, ast):
     return m, info
 
 
+def reentrant_cases(rng, n):
+    """(macro source, hand-inlined source): `wrap` is instantiated while an outer instantiation of `wrap` is still being expanded,
+    with different arguments, and uses its parameters before and after the nested call"""
+    out = []
+    for _ in range(n):
+        cnt = ["a", "b", "c"]
+        hk = ["h0", "h1", "h2"]
+        delim = [rng.choice([";", "!", ","]), rng.choice(["|", "#"]), rng.choice(["~", "$"])]
+        leaf = rng.choice(['"x"', "/x+y/", '"xy"i'])
+        levels = rng.choice([2, 2, 3])
+        pre = rng.sample(["cnt = [cnt + 1];", "hk();", "other = [other + val];"], rng.randrange(1, 4))
+        post = rng.sample(["hk();", "cnt = [cnt + val];", ""], rng.randrange(1, 3))
+        body = " " + "\n ".join(pre) + "\n body();\n delim;\n " + "\n ".join(x for x in post if x) + "\n"
+        macros = "macro wrap(macro body, out cnt, hook hk, match delim, expr val) {\n%s}\n" % body
+        macros += "macro leaf() {\n %s;\n}\n" % leaf
+        # level k calls wrap(level k+1, ...)
+        names = ["lvl%d" % i for i in range(levels)]
+        for i in range(1, levels):
+            inner = names[i + 1] if i + 1 < levels else "leaf"
+            macros += "macro %s() {\n wrap(%s, %s, %s, \"%s\", %d);\n}\n" % (names[i], inner, cnt[i], hk[i], delim[i], i + 2)
+        top_inner = names[1] if levels > 1 else "leaf"
+        decl = "out int a = 0;\nout int b = 0;\nout int c = 0;\nout int other = 0;\nhook h0;\nhook h1;\nhook h2;\n"
+        msrc = decl + macros + "parser {\n \"<\";\n wrap(%s, a, h0, \"%s\", 2);\n \">\";\n}\n" % (top_inner, delim[0])
+
+        def expand(i):
+            c, h, d, v = cnt[i], hk[i], delim[i], i + 2
+            sub = {"cnt": c, "hk": h, "val": str(v)}
+
+            def inst(line):
+                line = line.replace("cnt = [cnt + 1];", "%s = [%s + 1];" % (c, c)).replace("cnt = [cnt + val];", "%s = [%s + %d];" % (c, c, v))
+                line = line.replace("other = [other + val];", "other = [other + %d];" % v).replace("hk();", "%s();" % h)
+                return line
+            inner = expand(i + 1) if i + 1 < levels else [" %s;" % leaf]
+            return [" " + inst(x) for x in pre] + inner + [' "%s";' % d] + [" " + inst(x) for x in post if x]
+        isrc = decl + "parser {\n \"<\";\n" + "\n".join(expand(0)) + "\n \">\";\n}\n"
+        seeds = [b"<x" + "".join(reversed(delim[:levels])).encode() + b">", b"<xxy" + "".join(reversed(delim[:levels])).encode() + b">", b"<xy;>"]
+        out.append((msrc, isrc, seeds))
+    return out
+
+
 def bad_call_variants(rng, mast):
     """mutate one call: wrong count or wrong kind; expected: diagnosed error"""
     out = []
@@ -249,6 +289,16 @@ def run(ctx: Ctx):
                 ctx.violation("c13:bad-argument-accepted:%s" % tag.split("-for-")[0], "%s accepted silently" % tag, {"macro_source": bsrc, "nmfu_args": args, "mutation": tag})
             else:
                 ctx.count("bad_calls_diagnosed")
+    ctx.cov["reentrant_macro_cases"] = 0
+    for msrc, isrc, seeds in reentrant_cases(rng, 10 if quick else 80):
+        ri_, rm = nm.compile_source(isrc, [], name="i0", keep=False), nm.compile_source(msrc, [], name="m0", keep=False)
+        ctx.evaluations += 1
+        if ri_.ok != rm.ok:
+            ctx.violation("c13:verdict-differs:reentrant", "inlined %s, macro version %s (%s)" % (ri_.status, rm.status, rm.exc_type), {"inlined_source": isrc, "macro_source": msrc, "nmfu_args": []})
+            continue
+        if ri_.ok:
+            ctx.cov["reentrant_macro_cases"] += 1
+            cases.append(diff.Case("reentrant", [("inlined", isrc, ["-O2"]), ("macros", msrc, ["-O2"])], seeds=seeds))
     # rejected programs: the macro version must be rejected too
     rej = []
     work.generated_pool(rng, 8 if quick else 60, profile={"strict_after_open": 0.7}, on_reject=lambda a, s, ar, r: rej.append((a, s, ar, r)) if r.status == "rejected" else None)
@@ -269,6 +319,7 @@ def run(ctx: Ctx):
     diff.run_cases(ctx, cases, compare, rng, quick, nwalk=30 if quick else 60, input_cap=80 if quick else 250)
     ctx.floor("pairs_compared", 1500 if quick else 30000)
     ctx.floor("bad_calls_diagnosed", 40)
+    ctx.floor("reentrant_macro_cases", 5)
     need = ("out", "hook", "match", "expr") if quick else ("out", "hook", "match", "expr", "loop", "finishcode", "yieldcode", "macro")
     ctx.inconclusive_if(any(not kinds.get(k) for k in need) or len(kinds) < 6, "some argument kinds never generated: %s" % kinds)
     ctx.rule = ("case = (program, input): the inlined program and its macro-ized twin (1-3 extracted macros, nested, parameters of every kind) "
